@@ -187,6 +187,8 @@ pub struct Shared<G: AffineRepr> {
     pub pending: Option<usize>,
     pub chals: Vec<FOf<G>>,
     pub handles: Vec<String>,
+    /// multipliers_len() after every operation
+    pub len_trace: Vec<usize>,
     pub errors: Vec<String>,
     /// verifier-side deviation: shift the k-th replayed draw of a kind by `dev_delta`
     pub dev_draw: Option<(String, usize)>,
@@ -444,9 +446,8 @@ pub fn run_ops<G: AffineRepr, CS: RoleCS<G>>(cs: &mut CS, ops: &[Op], shr: &Rc<R
                         sh.gates.push((x, FOf::<G>::zero(), FOf::<G>::zero()));
                         sh.pending = Some(i);
                         sh.set_var(var, x);
-                        // the right and output wires of a half-assigned gate exist and are zero
-                        sh.set_var(Variable::MultiplierRight(i), FOf::<G>::zero());
-                        sh.set_var(Variable::MultiplierOutput(i), FOf::<G>::zero());
+                        // the right and output wires of a half-assigned gate are zero until (unless) a
+                        // second allocation fills them; constraints may not refer to them before that
                     }
                     Variable::MultiplierRight(i) => {
                         if i >= sh.gates.len() {
@@ -571,6 +572,8 @@ pub fn run_ops<G: AffineRepr, CS: RoleCS<G>>(cs: &mut CS, ops: &[Op], shr: &Rc<R
                 sh.chals.push(c);
             }
         }
+        let ml = cs.multipliers_len();
+        sh.len_trace.push(ml);
     }
 }
 
@@ -635,6 +638,7 @@ pub fn new_shared<G: AffineRepr>(shape: &Shape, err: &ErrPlan, src: Box<dyn Vals
         pending: None,
         chals: vec![],
         handles: vec![],
+        len_trace: vec![],
         errors: vec![],
         dev_draw: None,
         dev_delta: None,
@@ -699,6 +703,7 @@ pub fn rewind_for_verifier<G: AffineRepr>(shr: &Rc<RefCell<Shared<G>>>) {
     sh.chals.clear();
     sh.kind_count.clear();
     sh.handles.clear();
+    sh.len_trace.clear();
     if sh.verifier_commitments.is_empty() {
         sh.verifier_commitments = sh.commitments.clone();
     }
